@@ -212,6 +212,42 @@ def dp_example(case, t):
 DP_ATTRS = ("sigma", "output_stride", "centroids", "image_key", "instance_key")
 
 
+def jitter(t, k=1):
+    """Different keypoints, same tensor shape (NaNs stay NaN): shifted and, along the animal/node
+    axis, reversed."""
+    import torch
+    t2 = t.clone() + (1.25 * k)
+    return torch.flip(t2, dims=[1]) if t2.ndim >= 3 and t2.shape[1] > 1 else t2
+
+
+def tsame(a, b):
+    import torch
+    return a.shape == b.shape and bool(((a == b) | (torch.isnan(a) & torch.isnan(b))).all())
+
+
+def retained_check(kept, snaps, later):
+    """RETENTION: `kept` are results handed out earlier (the very tensors, not copies), `snaps` their
+    values at that time, `later` the results of further calls of the same output shape with different
+    keypoints.  A result is a fresh value: it must still hold its own answer bit for bit and must not
+    share storage with any later result."""
+    for i, (kt, sn) in enumerate(zip(kept, snaps)):
+        if not tsame(kt, sn):
+            d = float((torch_nan0(kt) - torch_nan0(sn)).abs().max())
+            return ("raise", "ResultAliased",
+                    f"result {i + 1}, kept by the caller, changed after {len(later)} later call(s) with other keypoints and the same "
+                    f"output shape {tuple(kt.shape)} (max |Δ| {d}): results are not fresh values")
+        for j, lt in enumerate(later):
+            if lt.numel() and kt.numel() and kt.untyped_storage().data_ptr() == lt.untyped_storage().data_ptr():
+                return ("raise", "ResultAliased",
+                        f"result {i + 1} and the result of later call {j + 1} share one storage (output shape {tuple(kt.shape)})")
+    return None
+
+
+def torch_nan0(t):
+    import torch
+    return torch.nan_to_num(t.detach().to(torch.float64), nan=0.0)
+
+
 def run_history(case):
     """Runs the case through the real code.  Returns a list of (label, result) — one entry per
     observation, result = ('ok', ndarray) | ('raise', cls, msg).  Plain functions are one call.
@@ -244,7 +280,28 @@ def run_history(case):
                      **({} if case.get("defaults") else {"is_centroids": False}))
         else:
             r = call(cmod.generate_multiconfmaps, t, (H, W), case["num_instances"], **kw, is_centroids=True)
-        return [("call", canon(r))]
+        obs = [("call", canon(r))]
+        if r[0] == "ok" and torch.is_tensor(r[1]):
+            # call history with RETAINED results: keep result 1 itself, make two further calls of the same output shape with
+            # other keypoints (the same public function, then make_confmaps / make_multi_confmaps directly), re-read result 1
+            kept, snap = r[1], r[1].clone()
+            from sleap_nn.data.utils import make_grid_vectors
+            xv, yv = make_grid_vectors(H, W, s)
+            j1, j2 = jitter(t, 1), jitter(t, 2)
+            if v in ("cm3", "cm4"):
+                l1 = call(cmod.generate_confmaps, j1, (H, W), **kw)
+                l2 = call(cmod.make_confmaps, j2.view(j2.shape[0], -1, 2), xv, yv, sg * s)
+            elif v == "multi":
+                l1 = call(cmod.generate_multiconfmaps, j1, (H, W), case["num_instances"], **kw)
+                l2 = call(cmod.make_multi_confmaps, j2[:, :case["num_instances"]], xv, yv, sg * s)
+            else:
+                l1 = call(cmod.generate_multiconfmaps, j1, (H, W), case["num_instances"], **kw, is_centroids=True)
+                l2 = call(cmod.make_multi_confmaps, j2[:, :case["num_instances"]].unsqueeze(-2), xv, yv, sg * s)
+            later = [x[1] for x in (l1, l2) if x[0] == "ok" and torch.is_tensor(x[1])]
+            bad = retained_check([kept], [snap], later)
+            if bad:
+                obs.append(("two-call history: result 1 re-read after later calls", bad))
+        return obs
 
     exs = [dp_example(case, t)]
     pos = 0
@@ -252,16 +309,16 @@ def run_history(case):
         d = dp_example(case["decoy"], case_tensor(case["decoy"]))
         exs, pos = ([d] + exs, 1) if case.get("decoy_first") else (exs + [d], 0)
     if v == "dp_cm":
-        mk, key = (lambda: cmod.ConfidenceMapGenerator(exs, **kw)), "confidence_maps"
+        mk, key = (lambda xs: cmod.ConfidenceMapGenerator(xs, **kw)), "confidence_maps"
     elif v == "dp_cm_inst":
-        mk = lambda: cmod.ConfidenceMapGenerator(exs, **kw, image_key="instance_image", instance_key="instance")
+        mk = lambda xs: cmod.ConfidenceMapGenerator(xs, **kw, image_key="instance_image", instance_key="instance")
         key = "confidence_maps"
     elif v == "dp_multi":
-        mk, key = (lambda: cmod.MultiConfidenceMapGenerator(exs, **kw, centroids=False)), "confidence_maps"
+        mk, key = (lambda xs: cmod.MultiConfidenceMapGenerator(xs, **kw, centroids=False)), "confidence_maps"
     else:
-        mk = lambda: cmod.MultiConfidenceMapGenerator(exs, **kw, **({} if case.get("defaults") else {"centroids": True}))
+        mk = lambda xs: cmod.MultiConfidenceMapGenerator(xs, **kw, **({} if case.get("defaults") else {"centroids": True}))
         key = "centroids_confidence_maps"
-    r0 = call(mk)
+    r0 = call(mk, exs)
     if r0[0] == "raise":
         return [("construct", r0)]
     dp = r0[1]
@@ -302,6 +359,23 @@ def run_history(case):
         r = call(lambda: drain(iter(dp))[pos])
         obs.append((f"pass {n + 1}", canon(r)))
         attrs_check(f"after pass {n + 1}:")
+
+    # RETENTION: keep the tensors one more pass hands out (not copies), then run a second generator over examples of
+    # the same shapes with other keypoints, and re-read the kept tensors
+    def retention():
+        kept = [e[key] for e in iter(dp)]
+        snaps = [x.clone() for x in kept]
+        pkey = "centroids" if v == "dp_cent" else ("instance" if v == "dp_cm_inst" else "instances")
+        exs2 = [{**e, pkey: jitter(e[pkey], 1)} for e in exs]
+        for e in exs2:
+            e.pop(key, None)
+        later = [e[key] for e in iter(mk(exs2))]
+        return retained_check(kept, snaps, later)
+    rr = call(retention)
+    if rr[0] == "raise":
+        obs.append(("retention pass", rr))
+    elif rr[1]:
+        obs.append(("history: results of one pass re-read after a later generator run of the same shapes", rr[1]))
     return obs
 
 
@@ -319,7 +393,7 @@ def first_oracle_failure(case, outputs_only=False):
             if r[1] == "StateMutated":
                 state = state or (label, f"{r[1]}: {r[2]}")
                 continue
-            return label, f"raised {r[1]}: {r[2]}"
+            return label, (r[2] if r[1] == "ResultAliased" else f"raised {r[1]}: {r[2]}")
         why = oracle(case, r[1])
         if why:
             return label, why
@@ -597,6 +671,8 @@ def check_case(chk, case, model_replies):
                          case, [label] + list(r), "ok")
             if r[1] == "StateMutated":
                 state = state or (label, f"{r[1]}: {r[2]}")
+            elif r[1] == "ResultAliased":
+                failing = failing or (label, r[2])
             else:
                 failing = failing or (label, f"raised {r[1]}: {r[2]}")
             reported = True
@@ -619,7 +695,10 @@ def check_case(chk, case, model_replies):
         if why and failing is None:
             failing = (label, why)
     if failing:
-        small = shrink(case, lambda c: first_oracle_failure(c, outputs_only=True) is not None)
+        def still(c):      # keep the KIND of failure while shrinking (a changed retained value stays a changed value)
+            f = first_oracle_failure(c, outputs_only=True)
+            return f is not None and (("changed after" in f[1]) == ("changed after" in failing[1]))
+        small = shrink(case, still)
         f2 = first_oracle_failure(small, outputs_only=True) or failing
         chk.fail(f"C01 fails on the implementation ({f2[0]}): {f2[1]}", small,
                  {"original_case": case, "why_original": f"{failing[0]}: {failing[1]}"}, ())
@@ -760,7 +839,9 @@ if __name__ == "__main__":
         rule="8 entry points (generate_confmaps rank 3/4, generate_multiconfmaps, centroid variant, the two DataPipe classes in 4 "
              "configurations; DataPipe cases are HISTORIES over one generator object: 1-3 passes (fresh iter() each, 35% with the second "
              "pass interleaved into the first), every pass compared with the stateless model and the oracle, public attributes "
-             "asserted unchanged; DataPipes also with a second, different example in the same pipe and with n_samples = 2; every "
+             "asserted unchanged; every call / pass is followed by 1-2 further calls of the same output shape with other keypoints (same "
+             "function, then make_confmaps / make_multi_confmaps directly; for DataPipes a second generator run) after which the RETAINED "
+             "earlier result must be bit-identical to its value when handed out and share no storage with the later results; DataPipes also with a second, different example in the same pipe and with n_samples = 2; every "
              "entry point once with default sigma/output_stride) x n_samples {1,2} x H,W in 1..64 and 33..1024 for stride >= 16 "
              "x stride {1,2,4,8,16,32} x sigma {.5,1,1.5,2.5,5} (60%) or log-uniform in [0.05,20] (40%) x 0-4 animals x 1-5 "
              "nodes x coordinates on the k/16 lattice inside/on/outside the border, up to +-10 image sizes away (+6% arbitrary "
